@@ -48,17 +48,7 @@ prop("C24", "K", "model_checking",
      technique="Kani/CBMC bounded model checking of all opcode helpers against a name-derived expected operator",
      outside="byte emission of the injected operator (wasm-encoder, via RoundtripReencoder::instruction); the injection bookkeeping of the real Inject implementors (C15/C22); the hand-reviewed name-normalisation table in vlib/genopcode.py is trusted")
 
-prop("C18", "T", "translation_validation",
-     text="(wip) engine T block entry",
-     technique="z3 bounded trace equivalence between the output of the real lowering and the prescribed event trace",
-     outside="wip")
-
 prop("C15", "T", "translation_validation",
-     text="(wip) engine T",
-     technique="z3 bounded trace equivalence between the output of the real lowering and the prescribed event trace",
-     outside="wip")
-
-prop("C16", "T", "translation_validation",
      text="(wip) engine T",
      technique="z3 bounded trace equivalence between the output of the real lowering and the prescribed event trace",
      outside="wip")
@@ -68,17 +58,7 @@ prop("C17", "T", "translation_validation",
      technique="z3 bounded trace equivalence between the output of the real lowering and the prescribed event trace",
      outside="wip")
 
-prop("C19", "T", "translation_validation",
-     text="(wip) engine T",
-     technique="z3 bounded trace equivalence between the output of the real lowering and the prescribed event trace",
-     outside="wip")
-
 prop("C20", "T", "translation_validation",
-     text="(wip) engine T",
-     technique="z3 bounded trace equivalence between the output of the real lowering and the prescribed event trace",
-     outside="wip")
-
-prop("C21", "T", "translation_validation",
      text="(wip) engine T",
      technique="z3 bounded trace equivalence between the output of the real lowering and the prescribed event trace",
      outside="wip")
@@ -88,10 +68,45 @@ prop("C22", "T", "translation_validation",
      technique="z3 bounded trace equivalence between the output of the real lowering and the prescribed event trace",
      outside="wip")
 
-prop("C05", "T", "translation_validation",
-     text="(wip) engine T",
-     technique="z3 bounded trace equivalence between the output of the real lowering and the prescribed event trace",
-     outside="wip")
+
+T_TECH = "z3 (QF_BV) bounded trace equivalence between the decoded output of the real parse->inject->encode pipeline and the property's reference semantics, for all oracle schedules up to K steps; sat models replayed by an independent interpreter"
+T_OUT = "probes other than `i32.const m; call $probe`; linear memory, globals, calls to local functions, typed blocks and multi-value results (the generated bodies have none: only imported-oracle calls, br/br_if/br_table, nested block/loop/if/else, return, unreachable); bodies with more than 3 abstract items (+ loop wrapper); runs longer than K = min(2*|body|+4, 72) steps, more than 10 oracle values or 12 events; tail calls and throw"
+
+prop("C15", "KT", "model_checking",
+     text="Two solver-decided parts. (K) Kani/CBMC on the real Module: through FunctionModifier::inject_at and set_instrument_mode_at+add_instr_at, for each of the 7 modes, the injected operator lands in exactly the list the mode names and no other list of any instruction changes; removal is recorded as Some(empty). (T) the real pipeline is run on a bounded-exhaustive family of bodies x plans of before/after/alternate/removal (incl. two probes on one site, probes on the final end) through all five API paths and the decoded function must equal, instruction for instruction, before-code / instruction-or-replacement / after-code.",
+     technique="Kani/CBMC bounded model checking of the injection bookkeeping + exact-splice validation of the real encoder's output over a bounded-exhaustive plan family",
+     outside="the ModuleIterator/ComponentIterator bookkeeping under Kani (CBMC out of memory, see harness/kflag.rs: those paths are exercised natively by engine T only); replacement/removal of structural instructions (block/loop/if/else/end), which unbalances the body by construction; " + T_OUT)
+prop("C16", "T", "translation_validation",
+     text="For every body of the family and every single neutral probe of every mode, z3 decides that the instrumented function - as emitted by the real encoder - produces the same obs-events and the same termination kind as the original for ALL oracle streams within the bounds, that before/after probes fire exactly when the instruction is about to execute / has completed without branching away, and wasmparser's validator must accept the output.",
+     technique=T_TECH,
+     outside="plain before/after on `else`/`end` and `after` on a `loop` opener (their lowering is prescribed syntactically by C15 and conflicts with a semantic reading); " + T_OUT)
+prop("C17", "T", "translation_validation",
+     text="z3 decides, for all oracle streams within the bounds, that the entry probe fires once before any original instruction and the exit probe once at every normal return (fall off the end, return, branch to the function label at any depth, br_table arm included) and once immediately before unreachable; obs-events and termination kind unchanged; output validates.",
+     technique=T_TECH, outside=T_OUT)
+prop("C18", "T", "translation_validation",
+     text="z3 decides, for all oracle streams within the bounds, that a block-entry probe on block/loop/if/else fires exactly on every entry into that body or arm, including every back-edge arrival at a loop header.",
+     technique=T_TECH, outside=T_OUT)
+prop("C19", "T", "translation_validation",
+     text="z3 decides, for all oracle streams within the bounds, that a block-exit probe fires exactly when the body (or arm) falls through to its end / else and never when the construct is left by a branch; bodies with nested constructs inside if-arms are part of the family.",
+     technique=T_TECH, outside=T_OUT)
+prop("C20", "T", "translation_validation",
+     text="z3 decides, for all oracle streams within the bounds, that a semantic-after probe on block/if/else fires on every arrival at the instruction after the construct and on br/br_if/br_table exactly once per execution of the branch (after arrival at the target when taken, immediately after when not); the family contains branches inside loops (loop-wrapped bodies) and br_table arms spanning depths and the function label.",
+     technique=T_TECH, outside="branches targeting loop labels (outside C20 itself); " + T_OUT)
+prop("C21", "T", "translation_validation",
+     text="z3 decides, for all oracle streams within the bounds, that the emitted function behaves as the original body with the selected construct (opener through matching end; for else: the else keyword and arm) replaced by the replacement code, or removed for an empty replacement; output validates.",
+     technique=T_TECH, outside="an empty replacement of an `if` (leaves the condition on the stack by construction); " + T_OUT)
+prop("C22", "KT", "model_checking",
+     text="(K) Kani/CBMC on the real Module: every special-mode operator accepted by FunctionModifier::inject_at / add_instr_at sets has_special_instr (so that encoding resolves it), for each special mode; empty block alternates too. (T) every accepted special-mode probe, issued through each of the five public API paths on the body family, must be present in the function the real encoder emits, and all paths must emit the same function; a rejected injection must be rejected by a panic at the call, not later.",
+     technique="Kani/CBMC bounded model checking of the has_special_instr bookkeeping + presence / cross-path validation of the real encoder's output",
+     outside="the iterator paths under Kani (out of memory; covered natively by engine T); " + T_OUT)
+prop("C26", "KT", "model_checking",
+     text="(K) Kani/CBMC on the real ComponentSubIterator: for 2 modules x 2 functions x <= 2 instructions with symbolic ids, counts, skip lists and both map insertion orders, the component walk equals the concatenation of the module-level walks. (T) the same plans issued through ComponentIterator and ModuleIterator produce identical encoded functions.",
+     technique="Kani/CBMC bounded model checking of ComponentSubIterator against the module-level walk + output equality of component vs module injection paths",
+     outside="Component::encode producing the same bytes for the untouched rest of the component (C27, not applicable); components with more than 2 modules; " + T_OUT)
+prop("C05", "KT", "model_checking",
+     text="(K) Kani/CBMC on the real generic re-indexing code: a second recalculate_ids on an already re-organised index space (what a second encode() executes) must leave the entity order unchanged and map every already-rewritten reference to itself. (T) the real Module::encode is called twice on instrumented modules of the family and both outputs must be byte-identical.",
+     technique="Kani/CBMC bounded model checking of the second re-indexing pass + byte equality of two consecutive real encodings over a bounded plan family",
+     outside="edit histories on real modules followed by two encodings (only the generic re-index core is covered, on light types); globals/memories instantiations are covered through the same generic code; " + T_OUT)
 
 
 def generated_harness_files(pid, tier, seed):
